@@ -14,8 +14,11 @@ pub mod c08;
 pub mod c09;
 pub mod c10;
 pub mod c11;
+pub mod c15;
 pub mod c16;
 pub mod c18;
+pub mod c19;
+pub mod c20;
 pub mod common;
 pub mod selfcheck;
 pub mod strs;
@@ -39,8 +42,11 @@ pub const PROPS: &[Prop] = &[
     Prop { id: "C09", run: c09::run, replay: c09::replay, leg: None },
     Prop { id: "C10", run: c10::run, replay: c10::replay, leg: None },
     Prop { id: "C11", run: c11::run, replay: c11::replay, leg: None },
+    Prop { id: "C15", run: c15::run, replay: c15::replay, leg: None },
     Prop { id: "C16", run: c16::run, replay: c16::replay, leg: None },
     Prop { id: "C18", run: c18::run, replay: c18::replay, leg: None },
+    Prop { id: "C19", run: c19::run, replay: c19::replay, leg: Some(c19::leg) },
+    Prop { id: "C20", run: c20::run, replay: c20::replay, leg: None },
 ];
 
 pub fn find(id: &str) -> Option<&'static Prop> {
